@@ -22,11 +22,11 @@ def configs(tier):
         "default": [],
         "bts-child": [("C1", 5700, 1)],
         "bts-child+ms-child": [("C1", 5700, 1), ("M1", 6700, 1)],
+        "extra-trx": [("X", 7700, 0)],          # three clock owners
     }
     if tier == "thorough":
         c.update({
             "bts-2children": [("C1", 5700, 1), ("C2", 5700, 2)],
-            "extra-trx": [("X", 7700, 0)],
             "extra-trx+child": [("X", 7700, 0), ("X1", 7700, 1)],
             "bts-child+extra": [("C1", 5700, 1), ("X", 7700, 0)],
             "other-ports": "ports",
@@ -90,6 +90,15 @@ class Spec:
             if sorted(want) != got:
                 v.append(("port-plan", "bound ports %r, documented plan %r" % (got, sorted(want))))
         script = [("tick",)]
+        # one clock owner leaves and another one joins between two indications (the set of links changes,
+        # its size does not)
+        owners = [i for i in range(n) if self.defs[i].clck is not None]
+        run_o = [i for i in owners if W.model.trx[i].running]
+        idle_o = [i for i in owners if not W.model.trx[i].running]
+        if run_o and idle_o:
+            # (with two or more running owners the generator keeps running through the swap)
+            script += [("tune", idle_o[0]), ("ctrl", run_o[0], "POWEROFF"), ("ctrl", idle_o[0], "POWERON"), ("tick",), ("tick",),
+                       ("ctrl", idle_o[0], "POWEROFF"), ("tune", run_o[0]), ("ctrl", run_o[0], "POWERON"), ("tick",)]
         script += [("burst", i, 1) for i in range(n)]
         script += [("tick",), ("tick",), ("tick",)]
         for ev in script:
